@@ -7,7 +7,9 @@ ASSUME = ["a NULL or missing ON-key component leaves match / no-match open (the 
           "concurrent replay: one updater goroutine (updates in sequence) and two EmitSync callers; a row may have been enriched from the table after any prefix of the updates between 'all that had returned before its call' and 'all that were called before its return' (TraceJoinConc)"]
 KEYVALS = [1, 2, {"$f": 1.0}, {"$f": 2.5}, "1", "a", "b", 16777216, 16777217, 1700000000, 1700000001, {"$i8": 1}, {"$i16": 2}, {"$u8": 2}, {"$u16": 1},
            # integers beyond 2^53 that differ by one (distinct keys), texts holding the separator of the table store's own key encoding
-           {"$big": "9007199254740992", "t": "int64"}, {"$big": "9007199254740993", "t": "int64"}, "x", "x\x1fs:y", "y\x1fs:z", "z"]
+           {"$big": "9007199254740992", "t": "int64"}, {"$big": "9007199254740993", "t": "int64"}, "x", "x\x1fs:y", "y\x1fs:z", "z",
+           # the zero values are keys like any other
+           0, {"$f": 0.0}, "", 0, ""]
 
 
 def samekey(a, b):
